@@ -1,7 +1,6 @@
 package rules
 
 import (
-	"go/constant"
 	"go/token"
 	"strings"
 
@@ -199,71 +198,84 @@ func (c *Ctx) adp(which map[string]bool) {
 	}
 
 	if which["ADP-2"] {
-		// PUBREL-gap branch: the warning and the drop go together
+		// PUBREL-gap branch: the warning and the drop go together. The branch is
+		// found structurally: a warning appended in AdoptSession outside the record
+		// loop, i.e. in a block that comes after the cleanSequence calls.
 		gap := c.acc("ADP-2", ad, "PUBREL-gap⇒warned∧dropped")
 		found := false
+		var cleanBlock *ssa.BasicBlock
 		for _, b := range ad.Blocks {
 			for _, ins := range b.Instrs {
-				call, ok := ins.(*ssa.Call)
-				if !ok {
-					continue
+				if call, ok := ins.(*ssa.Call); ok && call.Call.StaticCallee() == clean {
+					cleanBlock = b
 				}
-				f := call.Call.StaticCallee()
-				if f == nil || stdName(f) != "fmt.Errorf" {
-					continue
+			}
+		}
+		for _, b := range ad.Blocks {
+			if cleanBlock == nil || b == cleanBlock || !cleanBlock.Dominates(b) {
+				continue
+			}
+			warns := false
+			for _, ins := range b.Instrs {
+				if call, ok := ins.(*ssa.Call); ok {
+					if bl, ok := call.Call.Value.(*ssa.Builtin); ok && bl.Name() == "append" && call.Type().String() == "[]error" {
+						warns = true
+					}
 				}
-				k, ok := call.Call.Args[0].(*ssa.Const)
-				if !ok || k.Value == nil || k.Value.Kind() != constant.String {
-					continue
-				}
-				msg := constant.StringVal(k.Value)
-				if !strings.Contains(msg, "PUBREL") || !strings.Contains(msg, "dropped") {
-					continue
-				}
-				found = true
-				// after this block, the release-key slice used below must be nil/empty on this edge
-				okDrop := false
-				for _, bi := range b.Instrs {
-					if st, ok := bi.(*ssa.Store); ok {
-						if al, ok := st.Addr.(*ssa.Alloc); ok && al.Type().String() == "*[]uint" {
-							if cst, ok := st.Val.(*ssa.Const); ok && cst.Value == nil {
+			}
+			if !warns {
+				continue
+			}
+			found = true
+			okDrop := false
+			for _, bi := range b.Instrs {
+				if st, ok := bi.(*ssa.Store); ok {
+					if al, ok := st.Addr.(*ssa.Alloc); ok && al.Type().String() == "*[]uint" {
+						if cst, ok := st.Val.(*ssa.Const); ok && cst.Value == nil {
+							okDrop = true
+						}
+						if sl, ok := st.Val.(*ssa.Slice); ok {
+							if hi, ok := intConst(sl.High); ok && hi == 0 {
 								okDrop = true
 							}
 						}
 					}
 				}
-				for _, s := range b.Succs {
-					for _, si := range s.Instrs {
-						phi, ok := si.(*ssa.Phi)
-						if !ok {
-							break
-						}
-						if phi.Type().String() != "[]uint" {
+			}
+			// when the list is not captured by a closure it lives in a phi: the
+			// edge leaving this block must carry nil / an empty slice
+			for _, sb := range b.Succs {
+				for _, si := range sb.Instrs {
+					phi, ok := si.(*ssa.Phi)
+					if !ok {
+						break
+					}
+					if phi.Type().String() != "[]uint" {
+						continue
+					}
+					for i, pb := range sb.Preds {
+						if pb != b {
 							continue
 						}
-						for i, pb := range s.Preds {
-							if pb == b {
-								if cst, ok := phi.Edges[i].(*ssa.Const); ok && cst.Value == nil {
-									okDrop = true
-								}
-								if sl, ok := phi.Edges[i].(*ssa.Slice); ok {
-									if hi, ok := intConst(sl.High); ok && hi == 0 {
-										okDrop = true
-									}
-								}
+						if cst, ok := phi.Edges[i].(*ssa.Const); ok && cst.Value == nil {
+							okDrop = true
+						}
+						if sl, ok := phi.Edges[i].(*ssa.Slice); ok {
+							if hi, ok := intConst(sl.High); ok && hi == 0 {
+								okDrop = true
 							}
 						}
 					}
 				}
-				if okDrop {
-					gap.pass()
-				} else {
-					gap.failAt(c.P.Pos(call.Pos()), "the PUBREL range is reported as dropped but kept: the rebuilt counters span a hole and every connect fails on the missing key")
-				}
+			}
+			if okDrop {
+				gap.pass()
+			} else {
+				gap.failAt(c.P.Pos(b.Instrs[0].Pos()), "a record range is reported as abandoned after the cleaning step but kept: the rebuilt counters span a hole and every connect fails on the missing key")
 			}
 		}
 		if !found {
-			gap.failAt(c.P.Pos(ad.Pos()), "the PUBREL-to-PUBLISH gap check was not found")
+			gap.failAt(c.P.Pos(ad.Pos()), "the PUBREL-to-PUBLISH gap check (a warning after the cleaning step) was not found")
 		}
 		gap.done(1, "the branch that warns also empties the PUBREL list")
 	}
@@ -448,25 +460,45 @@ func (c *Ctx) adp(which map[string]bool) {
 	if which["ADP-6"] {
 		ef := c.errflow()
 		a := c.acc("ADP-6", ad, "fatal-only-from-Config,List,Load,Max")
-		for _, o := range ef.resultOrigins(ad, 2) {
+		for _, p := range paths {
+			if p.End != pathx.KReturn || p.Start != ad.Blocks[0] {
+				continue
+			}
+			last := len(p.Events) - 1
+			if retErr(p, last) == triNil {
+				continue
+			}
+			r := p.Events[last].Results[2]
 			ok := false
-			for k := range o.Classes {
-				switch {
-				case k == "external:Persistence.List" || k == "external:Persistence.Load":
-					ok = true
-				case strings.HasPrefix(k, "err") || k == "opaque:errors.New": // Config.valid
-					ok = true
-				case k == "opaque:Errorf":
-					ok = strings.Contains(o.What, "Max")
+			why := ""
+			for _, o := range ef.of(r) {
+				for k := range o.Classes {
+					switch {
+					case k == "external:Persistence.List" || k == "external:Persistence.Load":
+						ok = true
+					case strings.HasPrefix(k, "err") || k == "opaque:errors.New":
+						// Config.valid: the value is the result of the valid() call
+						if call, isCall := r.(*ssa.Call); isCall && call.Call.StaticCallee() != nil && call.Call.StaticCallee().Name() == "valid" {
+							ok = true
+						}
+					case k == "opaque:Errorf":
+						// only as the outcome of a capacity comparison
+						for _, cm := range assumed(p, 0, last) {
+							if cm.Op == token.GTR && (roleKey(cm.Y) == "Config.AtLeastOnceMax" || roleKey(cm.Y) == "Config.ExactlyOnceMax") {
+								ok = true
+							}
+						}
+					}
+					why = classList(o.Classes) + " (" + o.What + ")"
 				}
 			}
 			if ok {
 				a.pass()
 			} else {
-				a.failAt(o.Site, "AdoptSession can fail with {%s} (%s): damage to the store must yield warnings, never a fatal error", classList(o.Classes), o.What)
+				a.fail(p, last, "AdoptSession can fail with {%s}: damage to the store must yield warnings, never a fatal error", why)
 			}
 		}
-		a.done(4, "no fatal origin stems from a damaged record or a failed Delete")
+		a.done(4, "no fatal return stems from a damaged record or a failed Delete")
 	}
 
 	if which["ADP-7"] {
